@@ -54,13 +54,28 @@ func TestC05(t *testing.T) {
 			}
 		}
 	}
+	// the caller's own deadline fires while some sub-requests are answered and others are not (it is shorter than
+	// the per-request timeout): the result must still be an error or start at from+1
+	for _, k := range []string{bHang, bSlow, bNoClose, bEmpty, bReset, bNotFound} {
+		for _, chunk := range []uint64{2, 3, 5} {
+			for _, ctxMs := range []int{150, 400} {
+				b := behaviour{Kind: k, DelayMs: 0}
+				if k == bSlow {
+					b.DelayMs = 700
+				}
+				mon.Emit(r, "session", c05P{From: 10, To: 21, Chunk: chunk, Peers: []behaviour{b, {Kind: bHonest, DelayMs: 20}}, CtxMs: ctxMs}, "session")
+				mon.Emit(r, "session", c05P{From: 10, To: 21, Chunk: chunk, Peers: []behaviour{{Kind: bHonest, DelayMs: 30}, b, b}, CtxMs: ctxMs}, "session")
+				mon.Emit(r, "session", c05P{From: 10, To: 21, Chunk: chunk, Peers: []behaviour{b, {Kind: bHonest, DelayMs: 100}, {Kind: bSlow, DelayMs: 300}}, CtxMs: ctxMs}, "session")
+			}
+		}
+	}
 	rng := r.Rand("c05")
 	chunks := []uint64{1, 2, 3, 7, 8, 64}
 	for i := 0; i < r.N(250, 19000); i++ {
 		chunk := chunks[rng.Intn(len(chunks))]
 		ln := 1 + rng.Intn(int(min(3*chunk, 40)))
 		from := 2 + uint64(rng.Intn(20))
-		p := c05P{From: from, To: int64(from) + int64(ln) + 1, Chunk: chunk, CtxMs: 6000}
+		p := c05P{From: from, To: int64(from) + int64(ln) + 1, Chunk: chunk, CtxMs: []int{6000, 6000, 6000, 250}[rng.Intn(4)]}
 		np := 1 + rng.Intn(5)
 		for j := 0; j < np; j++ {
 			b := behaviour{Kind: c05Kinds[rng.Intn(len(c05Kinds))], K: rng.Intn(4), DelayMs: []int{0, 5, 40}[rng.Intn(3)]}
